@@ -11,6 +11,23 @@ COMMON_NOTE = ('Trusted: Lean 4.33 kernel with axioms propext/Classical.choice/Q
                'every invocation; harness generators, canonicalisation and monitors; ')
 
 CHECKS = {
+    'C15': dict(
+        text='Theorems (any number of threads, schedules of any length): if every thread\'s program is disciplined - every access to a '
+             'shared position-carrying object under the object\'s guard lock, every position-dependent call preceded in the same '
+             'critical section by the thread\'s own seek, locks properly taken and released - then the invariant (lock ownership, '
+             '"my pending position is the object\'s position") is preserved by every step, and every position-dependent call '
+             'observes the position its own thread set: reads return the bytes at their own offset, writes land at their own '
+             'offset, under every interleaving.  The programs are extracted on every run from the real code (class-level '
+             'instrumentation of Lock/RLock and of the read/write/seek/tell methods of the file classes) for every pair and '
+             'some triples of handle kinds of every reader; the Lean model evaluates the discipline on them; where it fails, '
+             'candidate schedules are replayed on the real code with a deterministic scheduler and a read that returns bytes '
+             'no serial run returns is the violation.',
+        note=COMMON_NOTE + 'one call on a shared object is atomic (GIL; C-level BytesIO calls); the traces come from single-threaded runs '
+             'of the concrete operations, so input-dependent lock paths are covered only as far as the generated operations '
+             'reach them; deadlock freedom is not a theorem (replayed schedules that hang are reported).',
+        technique='Lean 4 proof (invariant over all schedules of an event model) + traces extracted from the implementation + '
+                  'deterministic schedule replay',
+        design='§4 C15'),
     'C19': dict(
         text='Proved: every model parser is a total Lean function; for the loops whose trip count is driven by on-disk values - the '
              'RomFS metadata walk (never more entries than the tables can hold, so cyclic / self-referential links end in '
